@@ -369,19 +369,32 @@ def rule_x3(ctx):
     for a in c.args[:2]:
         e = a
         seen = 0
-        while isinstance(e, ast.Name) and seen < 4:
-            d = last_def(e.id, pos)
-            if d is None:
-                break
-            e = d.value
+        while seen < 8:
             seen += 1
-        while isinstance(e, ast.Subscript):
-            e = e.value
+            if isinstance(e, ast.Subscript):
+                e = e.value
+                continue
+            if isinstance(e, ast.Name):
+                d = last_def(e.id, pos)
+                if d is None:
+                    break
+                e = d.value
+                continue
+            break
         if isinstance(e, ast.Call) and dotted(e.func) == "utils.circle_angles" \
                 and e.args:
             srcs.append(dotted(e.args[0]))
+        elif isinstance(e, ast.Call) and dotted(e.func) in ("np.arctan2",
+                                                            "np.angle"):
+            srcs.append("<polar angle about the origin>")
         else:
             srcs.append(None)
+    if None in srcs:
+        r.note("X3", loc(f, c), dotted(c)[:100],
+               "an angle given to arc_include is not computed by "
+               "utils.circle_angles / arctan2 in a form the rule recognises "
+               "(not judged)")
+        return
     if None not in srcs and len(set(srcs)) == 1:
         r.ok("X3", "HorosphereArc.circle_parameters", loc(f, c),
              dotted(c)[:80], f"both angles are measured from `{srcs[0]}`")
